@@ -108,6 +108,16 @@ class PROP(Prop):
                         for parts in splits:
                             cs.append(Case(cligen.cli_line(proto, slave, [cligen.call_op(req, R=mb.rscript(parts), typed=True)]),
                                            {"foreign": True, "req": mb.show_req(req), "pdu": pdu.hex(), "split": len(parts[0])}, prof))
+        # the typed methods of the BLOCKING client, under no timeout, an ordinary one and the largest ones a Duration can hold: a result, never a panic
+        for tmo in ("-", "1000", "max"):
+            for setmax in (False, True):
+                for req in [("RC", 1, 3), ("RHR", 1, 2), ("RIR", 1, 2), ("WSR", 1, 2), ("WMR", 1, [2, 3])]:
+                    rsp = mb.matching_rsp(rng, req)
+                    fr = cligen.frame("tcp", 0, 255, mb.spec_rsp_pdu(rsp))
+                    ops = (["timeout max"] if setmax else []) + ["typed %s r%s" % (mb.show_req(req), fr.hex())]
+                    # for the model a timeout that cannot fire is no timeout
+                    mline = "SYNC tcp %s - %s" % ("-" if tmo == "max" else tmo, " ; ".join("timeout -" if o == "timeout max" else o for o in ops))
+                    cs.append(Case("SYNC tcp %s - %s" % (tmo, " ; ".join(ops)), {"sync": True, "req": mb.show_req(req), "model_line": mline}, "debug"))
         return cs
 
     def add(self, cs, proto, prof, req, rsp, rng, meta):
@@ -128,6 +138,9 @@ class PROP(Prop):
         r, _ = cligen.res_and_w(c.impl or "")
         if "PANIC" in r or "CRASH" in r or "NORESULT" in r:
             return "typed method panicked: %s" % r[:60]
+        if c.meta.get("sync"):
+            first = [x for x in (c.impl or "").split(" ; ") if not x.startswith("ok")][0] if c.impl else ""
+            return None if first[:2] in ("B:", "W:") or first.startswith("U") else "blocking typed method on a well-behaved server: %s" % (c.impl or "")[:80]
         if c.meta.get("foreign"):
             if r == "U" or r.startswith("B:") or r.startswith("W:"):
                 return "typed %s reported success (%s) for a reply of another kind (PDU %s)" % (c.meta["req"][:40], r[:40], c.meta["pdu"])
@@ -165,5 +178,8 @@ class PROP(Prop):
             return "typed write %s failed (%s) on its own echo" % (c.meta["req"][:50], r[:40])
         return None if r == "U" or r.startswith("T:") else "typed write: unexpected %s" % r[:60]
 
+    def project(self, case, s):
+        return (s or "").replace("ok t=max", "ok t=-") if case.meta.get("sync") else s
+
     def nontrivial(self, c):
-        return c.meta.get("foreign", False) or c.meta.get("echo", False) or c.meta.get("q") != c.meta.get("have")
+        return c.meta.get("sync", False) or c.meta.get("foreign", False) or c.meta.get("echo", False) or c.meta.get("q") != c.meta.get("have")
